@@ -95,3 +95,27 @@ func c18Scenarios(tier core.Tier) []scenario {
 			Menu: chain.Menu{Recv: true, Sync: true, Restart: true, Submit: []string{"pW1"}, Mine: 1, Blocks: []string{"k1", "k2", "k3", "k4"}}},
 	}
 }
+
+func c06Scenarios(tier core.Tier) []scenario {
+	d := dd(tier)
+	orcs := func() []chain.Oracle { return []chain.Oracle{&chain.CrashOracle{}} }
+	return []scenario{
+		{Name: "c06.3way", Universe: "U-3way-honest", Depth: 5 + d, Orcs: orcs,
+			Menu: chain.Menu{Recv: true, Sync: true, Play: true, WalkSome: true, Submit: []string{"tS", "tA2", "tD2"}, Mine: 1, Truncate: true, Blocks: []string{"a1", "a2", "b1", "b2", "b3"}}},
+		{Name: "c06.kv", Universe: "U-kv", Depth: 5 + d, Orcs: orcs,
+			Menu: chain.Menu{Recv: true, Sync: true, Play: true, WalkSome: true, Submit: []string{"pW1", "pR"}, Mine: 1, Blocks: []string{"k1", "k2", "k3", "j2"}}},
+		{Name: "c06.amt", Universe: "U-amt", Depth: 5 + d, Orcs: orcs,
+			Menu: chain.Menu{Recv: true, Sync: true, Submit: []string{"sA", "sA2"}, Mine: 2, Truncate: true, Blocks: []string{"x1", "x2", "y1", "y2"}}},
+		{Name: "c06.prune", Universe: "U-3way-honest-w1", Depth: 5 + d, Orcs: orcs,
+			Menu: chain.Menu{Recv: true, Sync: true, WalkSome: true, Prune: true, Blocks: []string{"a1", "a2", "a3", "b1", "b2"}}},
+	}
+}
+
+func init() {
+	moreScenarios = append(moreScenarios, c06Scenarios)
+	core.Register(&core.Check{ID: "C06", Run: func(t core.Tier) *core.Report {
+		rep := core.NewReport("C06", t, "fault_enumeration")
+		runScenarios(rep, c06Scenarios(t))
+		return rep
+	}, Replay: replayScenario(append(c06Scenarios(core.Quick), c06Scenarios(core.Thorough)...))})
+}
